@@ -68,6 +68,8 @@ def make_sched(kind, arg, rnd):
         return Sched(["wb", 4096], ["wb", 1 << 20], cycle=True)
     if kind == "wbat":          # one would-block at recv call index arg (and send index arg)
         return Sched([4096] * arg + ["wb"], [1 << 20] * arg + ["wb"])
+    if kind == "flushwb":       # would-block on send call index arg, on a socket whose sendall does NOT retry
+        return Sched([], [1 << 20] * arg + ["wb"])
     if kind == "sizes":         # cyclic pattern of sizes
         return Sched(arg, [max(1, x) for x in arg], cycle=True)
     if kind == "rand":
@@ -161,6 +163,15 @@ def attach_log(conn, sock, log):
         return orig_send(msg, padding)
     rs.recv = recv
     rs.send = send
+    bs = conn.sock
+    orig_brecv = bs.recv
+
+    def brecv(bufsize):
+        r = orig_brecv(bufsize)
+        if len(r):
+            log.append(("brecv", bufsize, len(r)))
+        return r
+    bs.recv = brecv
 
     class L(list):
         pass
@@ -197,6 +208,10 @@ def scenario_run(sc_id, f, sched, mitm, seed, big=20000):
     kind, arg = sched
     p.csock.schedule = make_sched(kind, arg, rnd)
     p.ssock.schedule = make_sched(kind, arg, rnd)
+    if kind == "flushwb":
+        # a real non-blocking socket: sendall raises when the kernel buffer is full
+        p.csock.blocking_sendall = False
+        p.ssock.blocking_sendall = False
     if mitm != "none":
         p.c2s.mitm = Refrag(mitm)
         p.s2c.mitm = Refrag(mitm)
@@ -338,6 +353,9 @@ def run(tier):
             scheds += [("sizes", [a, b]) for a in (1, 2, 3, 5, 6) for b in (1, 4, 5, 4096)]
         for s in scheds:
             jobs.append((si, f, s, "none", env.SEED))
+        if si < 3:
+            for i in range(3):
+                jobs.append((si, f, ("flushwb", i), "none", env.SEED))
         for m in ("one", "hdrsplit", "coalesce", "seven"):
             jobs.append((si, f, ("none", None), m, env.SEED))
             jobs.append((si, f, ("sizes", [3, 1, 9]), m, env.SEED))
@@ -373,6 +391,9 @@ def run(tier):
             cfg0 = ev[0]
             if k <= 1 and not (cfg0["outcomeEq"] and cfg0["wireEq"] and cfg0["dataEq"]):
                 why = "differs from the unconstrained run: outcomeEq=%s wireEq=%s dataEq=%s" % (cfg0["outcomeEq"], cfg0["wireEq"], cfg0["dataEq"])
+                hs = [o for o in info["run_outcomes"] if o[0] == "hs"]
+                if hs and "BlockingIOError" in json.dumps(hs):
+                    why += " (BlockingIOError out of the handshake)"
                 obs = json.dumps(info["run_outcomes"])[:300]
             else:
                 why = "socket-call trace rejected at event %d: %s" % (k, json.dumps(bad))
